@@ -799,6 +799,34 @@ func realDigest(r *rng, n int, sw *sweep) {
 				}
 			}
 		}
+		if k.name == "ecdsa" {
+			// "and with no other hash", the key held fixed: what another ES algorithm's signer made
+			// on this very key — over that algorithm's digest — must not pass this algorithm's
+			// VerifyDigest when handed that digest, nor may this algorithm's SignDigest sign it;
+			// a digest with octets appended or cut, or none at all, is no digest of this hash
+			for _, other := range []cose.Algorithm{cose.AlgorithmES256, cose.AlgorithmES384, cose.AlgorithmES512} {
+				od := hashFor(other, content)
+				if len(od) == len(dg) {
+					continue
+				}
+				if s2, e := cose.NewSigner(other, sk); e == nil {
+					if osig, e := s2.Sign(rand.Reader, content); e == nil && dv.VerifyDigest(od, osig) == nil {
+						sw.fail("digest", desc+fmt.Sprintf(" other=%d", other), "VerifyDigest accepted a signature made under another algorithm's hash on the same key")
+					}
+				}
+				if osig, e := ds.SignDigest(rand.Reader, od); e == nil || len(osig) != 0 {
+					sw.fail("digest", desc+fmt.Sprintf(" other=%d", other), "SignDigest signed a digest of another hash's length")
+				}
+			}
+			for name, bad := range map[string][]byte{"digest|junk": append(append([]byte{}, dg...), 1, 2, 3), "digest[:-1]": dg[:len(dg)-1], "nil": nil} {
+				if dv.VerifyDigest(bad, sig2) == nil {
+					sw.fail("digest", desc+" digest="+name, "VerifyDigest accepted a digest that is not of the algorithm's hash length")
+				}
+				if osig, e := ds.SignDigest(rand.Reader, bad); e == nil || len(osig) != 0 {
+					sw.fail("digest", desc+" digest="+name, "SignDigest signed a digest that is not of the algorithm's hash length")
+				}
+			}
+		}
 		// one signer object, two different messages: the first signature is still the first
 		// message's after the second was issued (no shared output buffer)
 		{
